@@ -65,9 +65,7 @@ theorem C09_oracle_accepts_model (c : Case) (hc : c.client = true) : holdsC09 c 
   refine ⟨f.answersE, ?_⟩
   intro d hd
   rw [f.disc] at hd
-  split at hd
-  · simp at hd
-  · simp at hd; subst hd; simp
+  simp at hd; subst hd; simp
 
 -- non-vacuity: the design's witness for F-09 (an <a/> before the <r/> must not be counted)
 example : answers (clientRecv ⟨"sm", 0⟩ [.pkt (.a 0) false, .pkt .r false, .pkt (.msg "1") false,
